@@ -145,6 +145,38 @@ def rng_rules(chk):
         chk.violation(R, inst, F.where(), 'the generator is marked seeded without the entropy being mixed in', key='%s inject-order' % R)
 
 
+def seed_all_bytes(chk):
+    """"different seeds give different streams": every byte of an injected seed must reach the DRBG.  Decided part: with the seed
+    length fixed to K, a single (non-looping) DRBG update whose length folds to a constant below K necessarily drops seed bytes."""
+    R = 'seed-fully-absorbed'
+    s = 'src/ssl/ssl_engine.c'
+
+    def full(K):
+        def f(F):
+            calls = [i for i in fold._reach_insts(F) if i['op'] == 'call' and i.get('callee') == 'br_hmac_drbg_update']
+            if not calls:
+                return False, 'no DRBG update is reached for a %d-byte seed' % K
+            inloop = F.loops_blocks()
+            tot, var = 0, False
+            for c in calls:
+                a = c['ops'][2]
+                if a['k'] != 'c' or F.block_of[c['id']] in inloop:
+                    var = True
+                else:
+                    tot += a['v']
+            if var or tot >= K:
+                return True, '%d update call(s); %s' % (len(calls), 'length not constant / in a loop (not judged)' if var else 'total %d bytes' % tot)
+            return False, 'the DRBG is updated with %d bytes of a %d-byte seed' % (tot, K)
+        f.desc = 'the DRBG update(s) absorb all %d seed bytes' % K
+        return f
+    obs = []
+    for K in (48, 1000):
+        obs.append(Ob(s, 'br_ssl_engine_inject_entropy', Var('len', 'param'), ('assume', 'eq', K), full(K), None,
+                      'bytes of the injected seed that never reach the generator make different seeds produce the same stream', rule=R,
+                      noinline=('br_hmac_drbg_update', 'rng_init'), extra_hyps=[(Call('rng_init'), ('pin', 1))]))
+    oblig.run_obligations(chk, obs)
+
+
 def seeder_rules(chk):
     """every system seeder compiled in this configuration returns 0 when its source fails and updates the DRBG before returning 1"""
     s = 'src/rand/sysrng.c'
@@ -214,12 +246,13 @@ def run(tier):
                        'Static: (1) seed-or-fail gate: a failed br_ssl_engine_init_rand makes client/server reset return 0 without reaching '
                        'hs_reset; init_rand returns 0 and never marks the generator seeded when the state reads unseeded and the system seeder is '
                        'absent, fails, or was already tried; only init_rand (after seeder success) and inject_entropy (after the DRBG update) '
-                       'store the seeded mark; system seeders fail closed. (2) sequence numbers: in all 8 encrypt/decrypt methods the 64-bit '
+                       'store the seeded mark; system seeders fail closed; an injected seed of 48 / 1000 bytes is absorbed whole by the DRBG update. (2) sequence numbers: in all 8 encrypt/decrypt methods the 64-bit '
                        'sequence number is incremented exactly once per record (single load+1 store, outside loops, dominating every return, '
                        'possibly delegated to one helper), reset to 0 by every init, and written by nobody else. NOT decided: distinctness of '
                        'randoms across connections, reproducibility with equal seeds, nonce values.',
                        trusted=['clang/opt 14', 'debug-info struct layouts', 'sa/wmw.py whole-program store scan (all 295 units)'])
     rng_rules(chk)
     seeder_rules(chk)
+    seed_all_bytes(chk)
     seq_rules(chk)
     return chk.finish()
